@@ -254,7 +254,7 @@ class RawVoltageBackend(object):
         return backend
     
     
-    def _header_populate_configuration(self, header_dict={}):
+    def _header_populate_configuration(self, header_dict={}, user_keys=()):
         """
         Populate the given dictionary with entries showing the configuration values.
         
@@ -262,21 +262,23 @@ class RawVoltageBackend(object):
         ----------
         header_dict : dict, optional
             Dictionary of header values to set.
+        user_keys : collection, optional
+            Keys whose values were supplied by the caller of ``record`` and are kept as given.
         """
         # Set header values determined by pipeline parameters
         if 'TELESCOP' not in header_dict:
             header_dict['TELESCOP'] = 'SETIGEN'
-        elif (self.input_header_dict is not None and 'TELESCOP' in self.input_header_dict 
+        elif ('TELESCOP' not in user_keys and self.input_header_dict is not None and 'TELESCOP' in self.input_header_dict 
               and 'SETIGEN' not in self.input_header_dict['TELESCOP']):
             header_dict['TELESCOP'] = f"{self.input_header_dict['TELESCOP'].strip()}_SETIGEN"
         if 'OBSERVER' not in header_dict:
             header_dict['OBSERVER'] = 'SETIGEN'
-        elif (self.input_header_dict is not None and 'OBSERVER' in self.input_header_dict 
+        elif ('OBSERVER' not in user_keys and self.input_header_dict is not None and 'OBSERVER' in self.input_header_dict 
               and 'SETIGEN' not in self.input_header_dict['OBSERVER']):
             header_dict['OBSERVER'] = f"{self.input_header_dict['OBSERVER'].strip()}_SETIGEN"
         if 'SRC_NAME' not in header_dict:
             header_dict['SRC_NAME'] = 'SYNTHETIC'
-        elif (self.input_header_dict is not None and 'SRC_NAME' in self.input_header_dict 
+        elif ('SRC_NAME' not in user_keys and self.input_header_dict is not None and 'SRC_NAME' in self.input_header_dict 
               and 'SYNTHETIC' not in self.input_header_dict['SRC_NAME']):
             header_dict['SRC_NAME'] = f"{self.input_header_dict['SRC_NAME'].strip()}_SETIGEN"
         
@@ -626,6 +628,8 @@ class RawVoltageBackend(object):
         # Work on a copy: the header is filled in and its PKTIDX advanced while recording, which 
         # must not leak into the caller's dictionary (or the shared default) and later recordings
         header_dict = dict(header_dict)
+        # Cards the caller supplied: they are not relabelled from the input recording's header
+        user_keys = set(header_dict)
         
         if length_mode == 'obs_length':
             if obs_length is None:
@@ -658,7 +662,7 @@ class RawVoltageBackend(object):
         if self.input_header_dict is not None:
             header_dict = self._header_add_from_input_header(header_dict)
         # Update header with config last to honor prior entries
-        header_dict = self._header_populate_configuration(header_dict)
+        header_dict = self._header_populate_configuration(header_dict, user_keys=user_keys)
         
         # Mark each antenna and data stream as the start of the observation
         self.antenna_source.reset_start()
